@@ -194,6 +194,18 @@ SPECS["C04"] = {
                     "oracle: PS3.5 7.1/7.5 walker written in enginem/cases/c04.py, also run over the real bytes of every instance (native oracle c04_elem / c04_tokens)"],
 }
 
+SPECS["C09"] = {
+    "parts": [{"engine": "m", "module": "c09"}],
+    "functions": ["dicom_object::meta::FileMetaTable::{update_information_group_length, calculate_information_group_length, into_element_iter}", "dicom_object::meta::dicom_len",
+                  "dicom_parser::stateful::encode::StatefulEncoder::encode_primitive_element and the Explicit VR LE header / primitive encoders (as in C04)"],
+    "bounds": "quick: 6 presence masks of the optional attributes (none, all, each end, two mixed) with a length pattern chosen by VERIF_SEED; thorough: all 64 masks x 4 length patterns; string lengths 0..5 (odd and even), "
+              "private information 0..3 bytes; characters symbolic",
+    "outside": "reading the group back (FileMetaTable::read_from), attribute operations on the table, FileMetaTableBuilder::build and its defaults, files with and without preamble; longer strings (the arithmetic is per field: "
+               "dicom_len rounds to even, the encoder pads)",
+    "assumptions": ["the elements go straight from into_element_iter to encode_primitive_element (DataSetWriter::write_sequence / IntoTokens between them are covered by C04's token streams)",
+                    "text codec contract: default repertoire is its own encoding", "vec!/smallvec! lowering (Box::new_uninit, box_assume_init_into_vec_unsafe, SmallVec::from_vec) modelled as list construction"],
+}
+
 SPECS["C12"] = {
     "parts": [{"engine": "m", "module": "c12"}, {"engine": "m", "module": "c12rt"}],
     "bounds": "every DicomTime value its constructors admit: all four precisions, hour 0-23, minute 0-59, second 0-60 (leap second), fraction of 1-6 digits with any value (range clause); "
